@@ -97,8 +97,10 @@ def pqarg(a):
     return a[0] if a[1] is None else f"{a[0]}[{a[1]}]"
 
 
-def papp(g, args, qs):
-    return g + (f"({','.join(pexpr(e) for e in args)})" if args else "") + " " + ",".join(qs) + ";"
+def papp(g, args, qs, parens=False):
+    """parens: print an EMPTY parameter list as `( )` (allowed by the grammar for every gate but U / CX)"""
+    pl = f"({','.join(pexpr(e) for e in args)})" if args else ("()" if parens and g not in ("U", "CX") else "")
+    return g + pl + " " + ",".join(qs) + ";"
 
 
 def print_prog(p, layout="canonical", rng=None):
@@ -106,7 +108,7 @@ def print_prog(p, layout="canonical", rng=None):
     decl = [f"qreg {r}[{n}];" for r, n in p["qregs"]] + [f"creg {r}[{n}];" for r, n in p["cregs"]]
     gl = []
     for g in p["gates"]:
-        head = g["name"] + (f"({','.join(g['params'])})" if g["params"] else "") + " " + ",".join(g["qubits"])
+        head = g["name"] + (f"({','.join(g['params'])})" if g["params"] else ("()" if g.get("parens") else "")) + " " + ",".join(g["qubits"])
         if g.get("opaque"):
             gl.append(f"opaque {head};")
             continue
@@ -115,7 +117,7 @@ def print_prog(p, layout="canonical", rng=None):
             if "barrier" in b:
                 body.append("barrier " + ",".join(b["barrier"]) + ";")
             else:
-                body.append(papp(b["call"], b["args"], b["qs"]))
+                body.append(papp(b["call"], b["args"], b["qs"], b.get("parens")))
         if layout == "multiline":
             gl.append(f"gate {head}\n{{\n" + "\n".join("  " + x for x in body) + "\n}")
         else:
@@ -123,7 +125,7 @@ def print_prog(p, layout="canonical", rng=None):
     ol = []
     for o in p["ops"]:
         if "app" in o:
-            s = papp(o["app"], o["args"], [pqarg(a) for a in o["qs"]])
+            s = papp(o["app"], o["args"], [pqarg(a) for a in o["qs"]], o.get("parens"))
             if "if" in o:
                 s = f"if({o['if'][0]}=={o['if'][1]}) " + s
             ol.append(s)
@@ -537,10 +539,16 @@ def gen_prog(rng, size="small"):
             a, k = sig[h]
             body.append({"call": h, "args": [gen_expr(rng, params) for _ in range(a)], "qs": rng.sample(qf, k)})
             d = max(d, depth.get(h, 0) + 1)
-        if not any("call" in b for b in body):
-            body.append({"call": "h", "args": [], "qs": [qf[0]]})
-            d = max(d, 1)
-        gates.append({"name": name, "params": params, "qubits": qf, "body": body})
+        if rng.random() < 0.12:           # a body that applies no gate: empty, or barriers only (the identity)
+            body = [b for b in body if "barrier" in b] if rng.random() < 0.5 else []
+            d = 0
+        for b in body:
+            if "call" in b and not b["args"] and rng.random() < 0.2:
+                b["parens"] = True
+        g_new = {"name": name, "params": params, "qubits": qf, "body": body}
+        if not params and rng.random() < 0.3:
+            g_new["parens"] = True
+        gates.append(g_new)
         sig[name] = (npar, nqb)
         depth[name] = d
     ops = []
@@ -580,6 +588,8 @@ def gen_prog(rng, size="small"):
         if qs is None:
             qs = [list(q) for q in rng.sample(allq, k)]
         o = {"app": h, "args": args, "qs": qs}
+        if not args and rng.random() < 0.2:
+            o["parens"] = True
         if cregs and rng.random() < 0.3:
             cr = rng.choice(cregs)
             kv = rng.randrange(2 ** cr[1]) if rng.random() < 0.9 else 2 ** cr[1] + rng.randrange(3)
@@ -787,24 +797,10 @@ def classify(f):
     text = inp.get("text", "")
     if "is refused" not in f.get("what", "") or not text:
         return None
-    empty_body = r"(gate [^{]*\{)(\s*((barrier [^;]*;)\s*)*)\}"
-    if re.search(empty_body, text):
-        fixed = re.sub(empty_body, lambda m: m.group(1) + m.group(2) + " id " + _first_formal(m.group(1)) + "; }", text)
-        if oracle(fixed, True) is None:
-            return "empty-gate-body-refused"
-    if re.search(r"[A-Za-z_]\w*\s*\(\s*\)", text):
-        if oracle(re.sub(r"([A-Za-z_]\w*)\s*\(\s*\)", r"\1", text), True) is None:
-            return "empty-parameter-parens-refused"
     if re.search(r"(?m)^\s*if\s*\([^)]*\)\s*measure\b", text):
         if oracle(re.sub(r"(?m)^(\s*)if\s*\([^)]*\)\s*(measure\b)", r"\1\2", text), True) is None:
             return "if-measure-refused"
     return None
-
-
-def _first_formal(head):
-    h = head.split("{")[0].strip()
-    h = h.split(")")[-1] if ")" in h else " ".join(h.split()[2:])
-    return h.split(",")[0].strip()
 
 
 def generate(ctx):
@@ -834,7 +830,7 @@ def _stream(ctx, n_valid, n_bad, n_layout):
 
 def correspond(ctx):
     corr = Corr(rule="programs from the grammar of the supported subset (1-3 qregs, 0-3 cregs, <= 5 qubits, 0-4 gate definitions "
-                     "nested <= 3, parameter expressions, indexed / whole-register arguments, barrier, measure, if) + one malformation "
+                     "nested <= 3, parameter expressions, empty bodies, `( )` parameter lists, indexed / whole-register arguments, barrier, measure, if) + one malformation "
                      "each of 30 kinds (incl. broadcasts whose k-th tuple, k >= 1, repeats a qubit) + other layouts; non-trivial = uses a user gate, a broadcast, an if, a measurement or a parameter")
     cases = _stream(ctx, ctx.n(260, 2400), ctx.n(240, 1800), ctx.n(40, 300))
     progs = [c[1] for c in cases]
